@@ -463,6 +463,11 @@ func strToRunes(s symstr) []value {
 
 func strToBytes(s symstr) []value {
 	var out []value
+	if len(s.p) == 1 {
+		if jb, ok := pieceBlob(s.p[0]); ok {
+			return []value{jb}
+		}
+	}
 	for _, t := range s.byteTerms() {
 		out = append(out, mkval(t, types.Uint8))
 	}
